@@ -137,7 +137,10 @@ func types() []typeDef {
 		}},
 		{"mutex", func(p *prog) ([]func(g, a int), func()) {
 			var m csync.Mutex
-			l := m.Locker()
+			var l sync.Locker
+			if !p.seedHalf() {
+				l = m.Locker() // (otherwise the first Locker() calls happen concurrently)
+			}
 			shared := 0
 			return []func(g, a int){
 				func(g, a int) {
@@ -160,12 +163,25 @@ func types() []typeDef {
 						}
 					}
 				},
-				func(g, a int) { l.Lock(); shared++; l.Unlock() },
+				func(g, a int) {
+					ll := l
+					if ll == nil {
+						ll = m.Locker()
+					}
+					ll.Lock()
+					shared++
+					ll.Unlock()
+				},
+				// every goroutine asks the Mutex for its own Locker
+				func(g, a int) { own := m.Locker(); own.Lock(); shared++; own.Unlock() },
 			}, nil
 		}},
 		{"rwmutex", func(p *prog) ([]func(g, a int), func()) {
 			var m csync.RWMutex
-			wl, rl := m.Locker(), m.RLocker()
+			var wl, rl sync.Locker
+			if !p.seedHalf() {
+				wl, rl = m.Locker(), m.RLocker()
+			}
 			shared := 0
 			return []func(g, a int){
 				func(g, a int) {
@@ -195,8 +211,37 @@ func types() []typeDef {
 						rel()
 					}
 				},
-				func(g, a int) { wl.Lock(); shared++; wl.Unlock() },
-				func(g, a int) { rl.Lock(); _ = shared; rl.Unlock() },
+				func(g, a int) {
+					ll := wl
+					if ll == nil {
+						ll = m.Locker()
+					}
+					ll.Lock()
+					shared++
+					ll.Unlock()
+				},
+				func(g, a int) {
+					ll := rl
+					if ll == nil {
+						ll = m.RLocker()
+					}
+					ll.Lock()
+					_ = shared
+					ll.Unlock()
+				},
+				func(g, a int) {
+					if a%2 == 0 {
+						own := m.Locker()
+						own.Lock()
+						shared++
+						own.Unlock()
+					} else {
+						own := m.RLocker()
+						own.Lock()
+						_ = shared
+						own.Unlock()
+					}
+				},
 			}, nil
 		}},
 		{"ccontainer", func(p *prog) ([]func(g, a int), func()) {
@@ -452,7 +497,7 @@ func types() []typeDef {
 			}, nil
 		}},
 		{"iosizer", func(p *prog) ([]func(g, a int), func()) {
-			st := &lockedBuf{}
+			st := &lockedBuf{eof: p.seedHalf()}
 			s := iosizer.NewSizeReadWriter(st, st)
 			return []func(g, a int){
 				func(g, a int) { _, _ = s.Read(make([]byte, a%8)) },
@@ -464,14 +509,18 @@ func types() []typeDef {
 }
 
 type lockedBuf struct {
-	mu sync.Mutex
-	b  bytes.Buffer
+	mu  sync.Mutex
+	b   bytes.Buffer
+	eof bool // report io.EOF when drained (a later Write makes data available again)
 }
 
 func (l *lockedBuf) Read(p []byte) (int, error) {
 	l.mu.Lock()
 	defer l.mu.Unlock()
-	n, _ := l.b.Read(p)
+	n, err := l.b.Read(p)
+	if l.eof {
+		return n, err
+	}
 	return n, nil
 }
 
